@@ -13,7 +13,7 @@ import vplib as V
 
 SPEC = os.path.join(V.SPEC, "Expr")
 
-PRELUDE = ('.const ca = 5\n.const cb = -3\n.const cw = $1234\n.const cz = 0\n'
+PRELUDE = ('.const ca = 5\n.const cb = -3\n.const cw = $1234\n.const cz = 0\n.const cf = $123456\n'
            '.const sa = "ab"\n.const sb = "c"\nlbl:\n')
 
 
